@@ -94,6 +94,9 @@ class TreeGen:
                     t = rng.choice(allvars) + rng.choice(['2', 'm', 'x', '0'])
                 elif r != '/' and maybe(rng, 0.2):
                     v = rng.choice(allvars)
+                    if maybe(rng, 0.35) and '-of' not in r and r.startswith(':') and len(r) > 1:
+                        core, tl, al_ = r.partition('~')
+                        r = core + '-of' + tl + al_          # an INVERTED (possibly forward) reference
                     key = (var, r.partition('~')[0], v)
                     if not self.wf or key not in self.seen_triples:
                         self.seen_triples.add(key)
@@ -503,7 +506,7 @@ def gen_constant_string(rng):
 
 
 def gen_atom_text(rng):
-    parts = ['0', '1', '9', '-', '+', '.', 'e', 'E', '"', 'a', 'n', 'u', 'l', 't', 'r', 'N', 'I', '\\', '[', ']', '{', '}',
+    parts = ['0', '1', '9', '-', '+', '.', 'e', 'E', '"', 'a', 'n', 'u', 'l', 't', 'r', 'N', 'I', '\\', '[', ']', '{', '}', '01', '00', '-0', '007', '0x1', '1_0',
              ':', ',', ' ', 'true', 'null', 'NaN', 'Infinity', '\\u00e9', '\\n', '1.5', '-0', '1e5', '[1]', '{"a":1}']
     n = rng.randint(0, 6)
     return ''.join(rng.choice(parts) for _ in range(n))
